@@ -1,6 +1,7 @@
 package checks
 
 import (
+	"encoding/json"
 	"fmt"
 	"sort"
 	"strings"
@@ -43,7 +44,7 @@ type c19Result struct {
 var c19Policies = []string{"RandomLoadBalance", "XID", "RoundRobinLoadBalance", "ConsistentHashLoadBalance", "LeastActiveLoadBalance"}
 
 func runC19(r *vc.Run, replay string) {
-	r.Rule = "selection: for each of the five policies (fresh client process per policy and history) histories of 60..200 actions {open a session to one of 4 addresses, close one, close-and-release one, select with an xid that names an open / closed / unknown address or is malformed} over a long-lived registry; after every select: the chosen session is registered and open at that moment, nil only when no session is open, and under XID an xid ip:port:id gets a session connected to ip:port whenever one is open; reconnection: the connection to the coordinator is cut (graceful close / reset) while idle, with a request in flight, between phase one and phase two of an AT branch, once and three times in a row: within 20 s a new session appears on which the coordinator receives RegisterTM and RegisterRM naming every resource registered before (AT data source, TCC actions), a new global transaction can begin, and the phase-two request for the earlier branch is answered; distinct_nontrivial = distinct (policy, state class, xid class) and (cut point, kind, repetition) signatures"
+	r.Rule = "selection: for each of the five policies (fresh client process per policy and history) histories of 60..200 actions {open a session to one of 4 addresses, close one, close-and-release one, select with an xid that names an open / closed / unknown address or is malformed} over a long-lived registry; after every select: the chosen session is registered and open at that moment, nil only when no session is open, and under XID an xid ip:port:id gets a session connected to ip:port whenever one is open; routing: a client with the XID policy and two coordinators (each puts its address into its xids): every request carrying an xid arrives at the coordinator that began the transaction; reconnection: the connection to the coordinator is cut (graceful close / reset) while idle, with a request in flight, between phase one and phase two of an AT branch, once and three times in a row: within 20 s a new session appears on which the coordinator receives RegisterTM and RegisterRM naming every resource registered before (AT data source, TCC actions), a new global transaction can begin, and the phase-two request for the earlier branch is answered; distinct_nontrivial = distinct (policy, state class, xid class) and (cut point, kind, repetition) signatures"
 	r.Assumptions = []string{"sessions of part one are monitor-owned objects implementing IsClosed / RemoteAddr / Close; any other method a policy calls shows up as a panic", "20 s bound for re-establishment (getty's reconnect loop period is a few seconds)"}
 	var wg sync.WaitGroup
 	only := osGetenv("VERIF_DEV_STREAM")
@@ -55,7 +56,102 @@ func runC19(r *vc.Run, replay string) {
 		wg.Add(1)
 		go func() { defer wg.Done(); c19Reconnect(r) }()
 	}
+	if only == "" || only == "routing" {
+		wg.Add(1)
+		go func() { defer wg.Done(); c19Routing(r) }()
+	}
 	wg.Wait()
+}
+
+// ---------------- routing in a running client (XID policy, two coordinators) ----------------
+
+// c19Routing: a real client configured with the XID policy and two coordinator addresses. Every coordinator puts its
+// own address into the xids it hands out, so each request that carries an xid (GlobalCommit / GlobalRollback,
+// BranchRegister, BranchReport) must arrive at the coordinator that began that transaction - its session is open all
+// the time. This is the selection of part one as the remoting client really calls it.
+func c19Routing(r *vc.Run) {
+	w, err := world.New(r)
+	if err != nil {
+		r.Errorf("%v", err)
+		return
+	}
+	defer w.Close()
+	tc2, err := faketc.New(w.Clock)
+	if err != nil {
+		r.Errorf("%v", err)
+		return
+	}
+	defer tc2.Close()
+	ch, err := w.StartClient("c19-route", r.Tier == "thorough", world.InitArg{LoadBalance: "XID", Replace: map[string]string{w.TC.Addr: w.TC.Addr + ";" + tc2.Addr}}, nil)
+	if err != nil {
+		r.Errorf("%v", err)
+		return
+	}
+	defer ch.Kill()
+	if tc2.WaitSession("", 20*time.Second) == nil || w.TC.WaitSession("", 20*time.Second) == nil {
+		r.Inconc("routing: the client did not connect to both coordinators")
+		return
+	}
+	if err := ch.Call("tcc_register", []string{"c19RouteAct"}, nil); err != nil {
+		r.Errorf("tcc_register: %v", err)
+		return
+	}
+	time.Sleep(300 * time.Millisecond) // both coordinators have the resource
+	n := 40
+	if r.Tier == "thorough" {
+		n = 300
+	}
+	tcs := map[string]*faketc.TC{w.TC.Addr: w.TC, tc2.Addr: tc2}
+	for i := 0; i < n; i++ {
+		name := fmt.Sprintf("c19r-%04d", i)
+		outcome := []string{"nil", "error"}[i%2]
+		var steps []gtxStep
+		if i%3 != 0 {
+			steps = []gtxStep{{Op: "tcc", Action: "c19RouteAct", Params: json.RawMessage(`{"kind":"int","a":1}`)}}
+		}
+		start := w.Clock.Now()
+		var res scopeResult
+		if err := ch.Call("gtx", &gtxScope{Case: name, Name: name, TimeoutMs: 60000, Outcome: outcome, Label: "route", Steps: steps}, &res); err != nil {
+			r.Inconc(name + ": " + err.Error())
+			r.Case("", nil)
+			continue
+		}
+		xid := res.XidIn
+		home := ""
+		for addr := range tcs {
+			if strings.HasPrefix(xid, addr+":") {
+				home = addr
+			}
+		}
+		var hist []string
+		misrouted := 0
+		routed := 0
+		for addr, tc := range tcs {
+			for _, e := range tc.EventsSince(start) {
+				if e.Dir != "in" || e.Msg == nil || e.FType == wire.FrameResponse || e.Msg.S("xid") != xid || xid == "" {
+					continue
+				}
+				hist = append(hist, fmt.Sprintf("[%d] coordinator %s received %s %s", e.Seq, addr, e.Type, clipStr(e.Text, 120)))
+				routed++
+				if home != "" && addr != home {
+					misrouted++
+				}
+			}
+		}
+		sort.Strings(hist)
+		shape := fmt.Sprintf("routing|XID|branch=%v|outcome=%s", len(steps) > 0, outcome)
+		if xid == "" || home == "" || routed == 0 {
+			r.Case("", nil)
+			continue
+		}
+		r.Case(shape, map[string]interface{}{"xid": xid, "requests": hist})
+		r.Count("requests_with_xid_routed", int64(routed))
+		if misrouted > 0 {
+			r.Violate(&vc.Violation{Clause: "xid-policy-ignored", Shape: shape, Features: map[string]string{"policy": "XID", "part": "routing"},
+				Detail:  fmt.Sprintf("%d of %d requests carrying xid %s went to the other coordinator although the session to %s was open", misrouted, routed, xid, home),
+				History: map[string]interface{}{"requests": hist, "returned": res.Returned + " " + res.Err}})
+		}
+	}
 }
 
 // ---------------- selection ----------------
